@@ -5,6 +5,7 @@
 (* enum: the names of the flags it contains joined by " | ".                  *)
 (* ENUM record: [type, bitmask, consts, probes, junk]                         *)
 (*   probe = [v, text (MarshalText), merr, back (UnmarshalText(text)), uerr,  *)
+(*            back2, uerr2 (the same into a variable holding another value), *)
 (*            str (String()), of (indices of the constants OR-ed into v)]     *)
 (*   junk  = [text, uerr]                                                     *)
 EXTENDS Integers, Sequences, SequencesExt, FiniteSets, FiniteSetsExt, Wide
@@ -40,6 +41,7 @@ ProbeOrdinary(consts, p) ==
   Failed_(<< <<"no_panic", ~p.panic>>,
              <<"marshal_ok", ~p.merr>>,
              <<"round_trip", ~p.uerr /\ Eq(p.back, p.v)>>,
+             <<"round_trip_into_a_used_variable", ~p.uerr2 /\ Eq(p.back2, p.v)>>,
              <<"defined_value_renders_its_name", Defined(consts, p.v) => p.text \in NamesOfValue(consts, p.v)>>,
              <<"other_value_renders_decimal", (~Defined(consts, p.v) /\ Below2p63(p.v)) => p.text = ToDecimal(p.v)>>,
              <<"string_equals_text", p.str = p.text>> >>)
@@ -53,6 +55,7 @@ ProbeBitmask(consts, p) ==
                 <<"no_panic", ~p.panic>>,
                 <<"marshal_ok", ~p.merr>>,
                 <<"round_trip", ~p.uerr /\ Eq(p.back, p.v)>>,
+                <<"round_trip_into_a_used_variable", ~p.uerr2 /\ Eq(p.back2, p.v)>>,
                 <<"renders_names_of_contained_flags",
                     (single /\ flags # {}) =>
                        /\ Len(parts) = Cardinality(vals)
